@@ -196,7 +196,7 @@ def jobs(tier):
                             budget=120 if tier == 'quick' else 600, bounds='n<=%d' % (N - 1)))
     shapes = [(2, 2, None), (1, 2, 1)] if tier == 'quick' else [(3, 3, None), (2, 2, 2)]
     for (a, b, c) in shapes:
-        for keyform, dom in (('single', 'I'), ('single', 'O'), ('compound', 'Od2'), ('none', 'I')):
+        for keyform, dom in (('single', 'I'), ('single', 'O'), ('compound', 'Od2'), ('none', 'I'), ('none', 'O')):
             for reverse in (False, True):
                 for bs in (None, 1, 2):
                     for presorted in (False, True):
